@@ -63,6 +63,11 @@ func (s *Service) BeaconBlockRoot(ctx context.Context,
 
 				return
 			}
+			if rootResponse == nil || rootResponse.Data == nil {
+				log.Warn().Dur("elapsed", time.Since(started)).Msg("Obtained nil beacon block root")
+
+				return
+			}
 			log.Trace().Str("provider", name).Dur("elapsed", time.Since(started)).Msg("Obtained beacon block root")
 
 			ch <- rootResponse
